@@ -721,57 +721,82 @@ func (p *Program) inlineAt(cs *CallSite, cand *inlineCand, tag string, read func
 	// the two-statement form: v := H(..) ; if v != nil { ...; return }   (or  ok := H(..); if !ok {...})
 	contEnd := stmt.End()
 	contPre := ""
-	if as, ok := stmt.(*ast.AssignStmt); ok && role == "assign" && contKind == "" && sig.Results().Len() == 1 && len(as.Lhs) == 1 {
-		if vid, isId := as.Lhs[0].(*ast.Ident); isId && vid.Name != "_" {
-			var list []ast.Stmt
-			switch par := p.Parent(caller.File, stmt).(type) {
-			case *ast.BlockStmt:
-				list = par.List
-			case *ast.CaseClause:
-				list = par.Body
+	contLHS := ""
+	if as, ok := stmt.(*ast.AssignStmt); ok && role == "assign" && contKind == "" && sig.Results().Len() == len(as.Lhs) && len(as.Lhs) >= 1 {
+		allIdents := true
+		var names []string
+		for _, l := range as.Lhs {
+			id, isId := l.(*ast.Ident)
+			if !isId {
+				allIdents = false
+				break
 			}
-			for i, st := range list {
-				if st != stmt || i+1 >= len(list) {
+			names = append(names, id.Name)
+		}
+		var list []ast.Stmt
+		switch par := p.Parent(caller.File, stmt).(type) {
+		case *ast.BlockStmt:
+			list = par.List
+		case *ast.CaseClause:
+			list = par.Body
+		}
+		for i, st := range list {
+			if !allIdents || st != stmt || i+1 >= len(list) {
+				continue
+			}
+			ifs, isIf := list[i+1].(*ast.IfStmt)
+			if !isIf || ifs.Init != nil || ifs.Else != nil || len(ifs.Body.List) == 0 {
+				continue
+			}
+			if _, endsRet := ifs.Body.List[len(ifs.Body.List)-1].(*ast.ReturnStmt); !endsRet {
+				continue
+			}
+			cond := unparen(ifs.Cond)
+			kind, tested := "", -1
+			for k, nm := range names {
+				if nm == "_" {
 					continue
 				}
-				ifs, isIf := list[i+1].(*ast.IfStmt)
-				if !isIf || ifs.Init != nil || ifs.Else != nil || len(ifs.Body.List) == 0 {
-					continue
-				}
-				if _, endsRet := ifs.Body.List[len(ifs.Body.List)-1].(*ast.ReturnStmt); !endsRet {
-					continue
-				}
-				cond := unparen(ifs.Cond)
-				kind := ""
 				if be, isB := cond.(*ast.BinaryExpr); isB && be.Op == token.NEQ && isNilIdent(info, be.Y) {
-					if cid, isC := unparen(be.X).(*ast.Ident); isC && cid.Name == vid.Name {
-						kind = "nonnil"
+					if cid, isC := unparen(be.X).(*ast.Ident); isC && cid.Name == nm {
+						kind, tested = "nonnil", k
 					}
 				}
-				if bt, isB := sig.Results().At(0).Type().Underlying().(*types.Basic); isB && bt.Kind() == types.Bool {
+				if bt, isB := sig.Results().At(k).Type().Underlying().(*types.Basic); isB && bt.Kind() == types.Bool {
 					if u, neg := cond.(*ast.UnaryExpr); neg && u.Op == token.NOT {
-						if cid, isC := unparen(u.X).(*ast.Ident); isC && cid.Name == vid.Name {
-							kind = "false"
+						if cid, isC := unparen(u.X).(*ast.Ident); isC && cid.Name == nm {
+							kind, tested = "false", k
 						}
-					} else if cid, isC := cond.(*ast.Ident); isC && cid.Name == vid.Name {
-						kind = "true"
+					} else if cid, isC := cond.(*ast.Ident); isC && cid.Name == nm {
+						kind, tested = "true", k
 					}
 				}
-				if kind == "" {
-					continue
-				}
-				contKind, contVar, contThen, contEnd = kind, vid.Name, ifs.Body, ifs.End()
-				if as.Tok == token.DEFINE {
-					okT := true
-					ts := types.TypeString(sig.Results().At(0).Type(), qualifierFor(caller.Pkg.Types, caller.File, info, &okT))
-					if !okT {
-						contKind = ""
+			}
+			if kind == "" {
+				continue
+			}
+			pre := ""
+			okT := true
+			if as.Tok == token.DEFINE {
+				q := qualifierFor(caller.Pkg.Types, caller.File, info, &okT)
+				for k, nm := range names {
+					if nm == "_" {
 						continue
 					}
-					contPre = "var " + vid.Name + " " + ts + "; _ = " + vid.Name + "; "
+					// := may re-use a variable of the same scope; declaring it again would not compile
+					if o := info.Defs[as.Lhs[k].(*ast.Ident)]; o == nil {
+						continue
+					}
+					pre += "var " + nm + " " + types.TypeString(sig.Results().At(k).Type(), q) + "; _ = " + nm + "; "
 				}
-				contAssign = true
 			}
+			if !okT {
+				continue
+			}
+			contKind, contVar, contThen, contEnd = kind, names[tested], ifs.Body, ifs.End()
+			contPre = pre
+			contAssign = true
+			contLHS = strings.Join(names, ", ")
 		}
 	}
 	if role == "" {
@@ -878,24 +903,31 @@ func (p *Program) inlineAt(cs *CallSite, cand *inlineCand, tag string, read func
 				}
 				return textEdit{off(dfile, x.Pos()), off(dfile, x.End()), "return " + strings.ReplaceAll(strings.Join(parts, ", "), "\n", " ")}, true, false
 			}
-			if contKind != "" && len(x.Results) == 1 {
+			if contKind != "" && len(x.Results) >= 1 && (len(x.Results) == 1 || contAssign) {
 				then := string(csrc[off(cfile, contThen.Lbrace) : off(cfile, contThen.Rbrace)+1])
-				e := bodyEdits(x.Results[0].Pos(), x.Results[0].End(), nil)
+				var parts []string
+				for _, r := range x.Results {
+					parts = append(parts, bodyEdits(r.Pos(), r.End(), nil))
+				}
+				e := strings.ReplaceAll(strings.Join(parts, ", "), "\n", " ")
 				tv := dinfo.Types[x.Results[0]]
+				if len(x.Results) > 1 {
+					tv = types.TypeAndValue{} // the tested variable is read back from the assignment
+				}
 				var sb strings.Builder
 				sb.WriteString("{ ")
 				if contAssign {
-					// the variable stays visible after the statement pair
+					// the variables stay visible after the statement pair
+					sb.WriteString(contLHS + " = " + e + "; " + dtext)
 					switch contKind {
 					case "nonnil":
-						sb.WriteString(contVar + " = " + e + "; ")
 						if !tv.IsNil() {
 							sb.WriteString("if " + contVar + " != nil " + then + "; ")
 						}
 					case "true":
-						sb.WriteString(contVar + " = " + e + "; if " + contVar + " " + then + "; ")
+						sb.WriteString("if " + contVar + " " + then + "; ")
 					case "false":
-						sb.WriteString(contVar + " = " + e + "; if !" + contVar + " " + then + "; ")
+						sb.WriteString("if !" + contVar + " " + then + "; ")
 					}
 					if needLoop {
 						sb.WriteString("break " + label + " }")
@@ -904,10 +936,18 @@ func (p *Program) inlineAt(cs *CallSite, cand *inlineCand, tag string, read func
 					}
 					return textEdit{off(dfile, x.Pos()), off(dfile, x.End()), sb.String()}, true, false
 				}
+				if dtext != "" && contKind != "nonnil" {
+					// the value is needed after the deferred calls: keep it in a temporary
+					sb.WriteString("c" + tag + " := " + e + "; " + dtext)
+					e = "c" + tag
+					tv = types.TypeAndValue{}
+				}
 				switch contKind {
 				case "nonnil":
 					if !tv.IsNil() {
-						sb.WriteString(contVar + " := " + e + "; if " + contVar + " != nil " + then + "; ")
+						sb.WriteString(contVar + " := " + e + "; " + dtext + "if " + contVar + " != nil " + then + "; ")
+					} else {
+						sb.WriteString(dtext)
 					}
 				case "true", "false":
 					cst := ""
@@ -960,9 +1000,7 @@ func (p *Program) inlineAt(cs *CallSite, cand *inlineCand, tag string, read func
 	if dtext != "" && !endsWithReturn {
 		body += "; " + dtext
 	}
-	if contKind != "" && dtext != "" {
-		return nil, nil, false // the caller's branch would run before the deferred calls
-	}
+
 	deferred = nil
 	dline := p.Fset.PositionFor(fd.Body.Lbrace, false).Line
 	sline := p.Fset.PositionFor(stmt.Pos(), false).Line
